@@ -135,8 +135,10 @@ def run(ctx):
     count = int(os.environ.get("VERIF_C05_GRAMMARS", "1400" if ctx.quick else "3000"))
     import random
     tg = targeted(); random.Random(ctx.seed).shuffle(tg)
-    gs = tg[:count * 2 // 3]
-    gs += [g for g in gramgen.family(ctx.seed, count) if g not in gs][:count - len(gs)]
+    gs = list(tg)           # every targeted shape is part of every run
+    gs += [g for g in gramgen.family(ctx.seed, count) if g not in set(gs)][:max(count - len(gs), count // 4)]
+    cross = gramgen.crossed_slice(ctx.seed, int(os.environ.get("VERIF_C05_CROSS", "250" if ctx.quick else "1500")))
+    gs += [g for g in cross if g not in set(gs)]
     stages = c01.front(gs, extras)
     acc = [(g, s) for g, s in zip(gs, stages) if "error" not in s]
     jobs = []; meta = []
